@@ -311,16 +311,29 @@ carquet_status_t carquet_page_writer_add_values(
 
     /* Accumulate the levels of this batch.  A data page carries exactly one
      * length-prefixed block per level kind, so the levels of all batches that
-     * share the page are encoded together when the page is finalized. */
-    if (writer->max_def_level > 0 && def_levels) {
-        status = carquet_buffer_append(&writer->def_levels_buffer,
-            (const uint8_t*)def_levels, (size_t)num_values * sizeof(int16_t));
+     * share the page are encoded together when the page is finalized.
+     * Without def_levels every value of the batch is present. */
+    if (writer->max_def_level > 0) {
+        if (def_levels) {
+            status = carquet_buffer_append(&writer->def_levels_buffer,
+                (const uint8_t*)def_levels, (size_t)num_values * sizeof(int16_t));
+        } else {
+            for (int64_t i = 0; i < num_values && status == CARQUET_OK; i++) {
+                status = carquet_buffer_append(&writer->def_levels_buffer,
+                    (const uint8_t*)&writer->max_def_level, sizeof(int16_t));
+            }
+        }
         if (status != CARQUET_OK) return status;
     }
 
-    if (writer->max_rep_level > 0 && rep_levels) {
-        status = carquet_buffer_append(&writer->rep_levels_buffer,
-            (const uint8_t*)rep_levels, (size_t)num_values * sizeof(int16_t));
+    if (writer->max_rep_level > 0) {
+        if (rep_levels) {
+            status = carquet_buffer_append(&writer->rep_levels_buffer,
+                (const uint8_t*)rep_levels, (size_t)num_values * sizeof(int16_t));
+        } else {
+            status = carquet_buffer_append_fill(&writer->rep_levels_buffer, 0,
+                (size_t)num_values * sizeof(int16_t));
+        }
         if (status != CARQUET_OK) return status;
     }
 
